@@ -20,6 +20,7 @@ var monitors = map[string]func(*vk.Ctx){
 	"C07":   runC07,
 	"C08":   runC08,
 	"C09":   runC09,
+	"C10":   runC10,
 	"C18":   runC18,
 }
 
